@@ -15,8 +15,8 @@ SCEN = {   # scenario -> (members, holders, generation config, trace config)
 }
 # deviations of the code from the statement: signature -> deviation constant of PrivRetry.tla
 EXPECTED = {
-    ("finished-job-recreated-by-bookkeeping", ""): "Resurrect",
-    ("job-stuck-with-payload-present", "payload-arrived-between-check-and-bookkeeping"): "Resurrect",
+    # Resurrect (finished-job-recreated-by-bookkeeping, job-stuck-with-payload-present) was repaired in notifier.notifyNow: the
+    # descriptive configurations carry Resurrect = FALSE, a behaviour that shows it again is a VIOLATION
     ("retries-exceed-budget", "restart-of-exhausted-job"): "RunOvershoot",
     ("dlq-lists-live-job", "at-failed-threshold"): "Threshold < Budget",
 }
